@@ -366,6 +366,10 @@ class SimNet:
             if ticket is not None:
                 ccfg.session_ticket = ticket
                 self.resumed_with_ticket = True
+            if opts.get("resume_forget"):
+                # the server has lost its ticket store (restart): it cannot accept the PSK nor the 0-RTT packets,
+                # falls back to a full handshake, and the client has to send its early data again in 1-RTT packets
+                store.tickets.clear()
             client_conn_kwargs = dict(client_conn_kwargs or {})
             client_conn_kwargs.setdefault("session_ticket_handler", store.client.append)
             server_conn_kwargs.setdefault("session_ticket_handler", store.add)
@@ -756,6 +760,15 @@ class SimNet:
                 src = SERVER_ADDR if side == "client" else CLIENT_ADDR
                 ep.started = True
                 self.call(ep, "receive_datagram", data, src, now=self.now)
+        elif kind == "forge":
+            # a packet the genuine peer *could* have sent (its current send keys, a fresh packet number, the
+            # connection ID it currently addresses) whose frames are a protocol violation: fatal error at `side`
+            data = self._forged(ep, op)
+            if data is None:
+                outcome = "skipped-no-keys"
+            else:
+                src = SERVER_ADDR if side == "client" else CLIENT_ADDR
+                self.call(ep, "receive_datagram", data, src, now=self.now)
         elif kind == "close":
             self.call(ep, "close", error_code=op.get("code", 0), frame_type=op.get("frame_type"), reason_phrase=op.get("reason", ""))
         else:
@@ -780,6 +793,47 @@ def _sim_mutated(self, op):
 
 
 SimNet._mutated = _sim_mutated
+
+
+def _sim_forged(self, victim, op):
+    from aioquic import tls
+
+    from . import frames as F
+    from . import refcrypto as rc
+    from .puppet import SUITE_NAME, TYPE_CODE
+
+    peer = self.other(victim)
+    if peer is None:
+        return None
+    ptype = op.get("ptype", "1rtt")
+    epoch = {"initial": tls.Epoch.INITIAL, "handshake": tls.Epoch.HANDSHAKE, "1rtt": tls.Epoch.ONE_RTT}[ptype]
+    pair = peer.conn._cryptos.get(epoch)
+    ctx = pair.send if pair is not None else None
+    if ctx is None or getattr(ctx, "secret", None) is None or ctx.cipher_suite is None:
+        return None
+    keys = rc.Keys(SUITE_NAME[int(ctx.cipher_suite)], bytes(ctx.secret), int(ctx.version))
+    if ptype == "1rtt" and not peer.handshake_complete:
+        return None
+    pn = peer.conn._packet_number + 500 + op.get("pn_skip", 0)
+    payload = bytes.fromhex(op["frames_hex"])
+    if len(payload) < 3:
+        payload += bytes(3 - len(payload))
+    dcid = bytes(peer.conn._peer_cid.cid)
+    version = int(peer.conn._version)
+    if ptype == "1rtt":
+        hdr = bytes([0x40 | (ctx.key_phase << 2) | 1]) + dcid
+    else:
+        scid = bytes(peer.conn.host_cid)
+        if op.get("pad_to"):
+            payload += bytes(max(0, op["pad_to"] - len(payload) - 60))
+        hdr = bytes([0xC0 | (TYPE_CODE[version][ptype] << 4) | 1]) + version.to_bytes(4, "big") + bytes([len(dcid)]) + dcid + bytes([len(scid)]) + scid
+        if ptype == "initial":
+            hdr += F.enc_varint(0)
+        hdr += F.enc_varint(2 + len(payload) + 16, 2)
+    return rc.protect(keys, hdr, pn, 2, payload)
+
+
+SimNet._forged = _sim_forged
 
 
 def _digest_args(args):
